@@ -255,7 +255,9 @@ def run_shard(ctx):
     for i in range(count):
         n = rng.choice([3, 4, 5])
         cls = rng.choice([T, T, T, T2, T2, T0])
-        spec = rng.choice([True, True, ['A'], ['B', 'A'], ['X', 'A', 'B'], 'A', 'B', False, None, 'AB', 'Xtra', ['AB', 'A'], ('B', 'Xtra')])
+        spec = rng.choice([True, True, ['A'], ['B', 'A'], ['X', 'A', 'B'], 'A', 'B', False, None, 'AB', 'Xtra', ['AB', 'A'], ('B', 'Xtra'),
+                           # a flag that is true without being the object True (a NumPy boolean out of a mask, the integer 1), or false (0)
+                           np.True_, 1, np.False_, 0])
         entry = rng.choice(['solve', 'solve', 'solve_t', 'solve_t', 'solve_period'])
         arg = None if entry == 'solve' else (rng.randrange(-n, n) if entry == 'solve_t' else rng.randrange(n))
         fault_at = rng.choice([None, None] + list(range(n)))
